@@ -136,7 +136,7 @@ def gen_time(ctx):
             ["return self.add(years=-years, months=-months, weeks=-weeks, days=-days, hours=-hours, minutes=-minutes, "
              "seconds=-seconds, microseconds=-microseconds)"])
     _expect("DateTime.time", _unparse_body(P.find_function(dtree, "DateTime.time")),
-            ["return Time(self.hour, self.minute, self.second, self.microsecond)"])
+            ["return Time(self.hour, self.minute, self.second, self.microsecond, fold=self.fold)"])
     _expect("DateTime.at", _unparse_body(P.find_function(dtree, "DateTime.at")),
             ["return self.set(hour=hour, minute=minute, second=second, microsecond=microsecond)"])
     # --- add_timedelta / subtract_timedelta: guard + keyword arguments
